@@ -19,3 +19,13 @@ let () =
     match a with
     | [src; pos] -> [n_s (line_at (bstr_of_hex src) (n_of_int (int_field pos)))]
     | _ -> failwith "line_at")
+
+(* C19: the prefix of a parse error's text, computed by the extracted Spec/ErrText.v from the format literal tablegen re-reads *)
+let () =
+  register "errprefix" (fun a ->
+    match a with
+    | [name; line; col] ->
+        (match error_prefix (bstr_of_hex name) (n_of_int (int_field line)) (n_of_int (int_field col)) with
+         | Some p -> [hex_of_bstr p]
+         | None -> ["!none"])
+    | _ -> failwith "errprefix")
